@@ -141,6 +141,20 @@ def rule_drop(ctx, prop):
                             g = prog.fn("stylua_lib", s["rv"]["closure"])
                             if g:
                                 members.append((g, range(len(g.blocks))))
+                # a local helper that receives the semicolon token and reads its trivia itself
+                for b in region:
+                    t = fb.blocks[b]["term"]
+                    if t["k"] != "call":
+                        continue
+                    h = prog.fn("stylua_lib", callee(t))
+                    if h is None or h is fb:
+                        continue
+                    for ai, a in enumerate(t["args"]):
+                        if is_const(a) or "TokenReference" not in fb.local_ty(op_place(a)["l"]):
+                            continue
+                        hm = [h] + [x for x in prog.fns("stylua_lib") if x.path.startswith(h.path + "::{closure")]
+                        for hh in hm:
+                            members.append((hh, range(len(hh.blocks))))
                 for g, blocks in members:
                     for b in blocks:
                         t = g.blocks[b]["term"]
